@@ -169,6 +169,58 @@ def writeSnapshot (exc nodes : List Nat) (s : Store) (node : Nat) (txs : List Tx
     | some s' => .ok s'
   else .panic
 
+/-! ### `validateOutputs` (common/validation.go): the in-transaction duplicate filter -/
+
+/-- what `validateOutputs` looks at in one output; `scriptOk`, `maskValid` are answers of the
+    real `Script.VerifyFormat` / `Key.CheckKey` supplied by the harness -/
+structure Out where
+  typ : Nat
+  amount : Nat
+  keys : List Nat
+  scriptOk : Bool
+  scriptEmpty : Bool
+  maskHas : Bool
+  maskValid : Bool
+  withdrawal : Bool
+  deriving DecidableEq, Repr
+
+/-- static part of the configuration of `validateOutputs` -/
+structure OutCfg where
+  limit : Nat              -- SliceCountLimit
+  kernelTypes : List Nat   -- output types of "kernel multisig" outputs (no keys, script, mask)
+  keyValid : Nat → Bool    -- Key.CheckKey
+
+/-- the key loop: `ghostKeysFilter` (by value) and `CheckKey`; returns the extended filter -/
+def scanKeys (valid : Nat → Bool) : List Nat → List Nat → Option (List Nat)
+  | [], seen => some seen
+  | k :: ks, seen =>
+    if k ∈ seen then none
+    else if valid k then scanKeys valid ks (k :: seen)
+    else none
+
+def shapeOk (oc : OutCfg) (o : Out) : Bool :=
+  if o.typ ∈ oc.kernelTypes then o.keys.isEmpty && o.scriptEmpty && !o.maskHas
+  else o.scriptOk && o.maskHas && o.maskValid && !o.withdrawal
+
+/-- the output loop; `seen` is the filter = the collected ghost keys in reverse order -/
+def scanOuts (oc : OutCfg) : List Out → List Nat → Option (List Nat)
+  | [], seen => some seen
+  | o :: os, seen =>
+    if o.keys.length > oc.limit then none
+    else if o.amount = 0 then none
+    else match scanKeys oc.keyValid o.keys seen with
+      | none => none
+      | some seen' => if shapeOk oc o then scanOuts oc os seen' else none
+
+/-- `validateOutputs`: every static rejection happens before the only store call -/
+def validateOutputs (exc : List Nat) (oc : OutCfg) (s : Store) (outs : List Out) (tx inputAmount : Nat)
+    (fork : Bool) : Res :=
+  match scanOuts oc outs [] with
+  | none => .err
+  | some seen =>
+    if inputAmount ≠ (outs.map (·.amount)).sum then .err
+    else lockGhostKeys exc s seen.reverse tx fork
+
 /-- the atomic calls -/
 inductive Op where
   | lockUTXOs (ins : List (Nat × Nat)) (tx : Nat) (fork : Bool)
